@@ -118,7 +118,7 @@ def gen_big(seed, idx):
     """Holder / waiter populations that cross the representation switches (6/128 holder slots,
     8/128 waiter slots, priority ring) and releases in random order."""
     rng = random.Random(seed * 7919 + idx)
-    kind = idx % 6
+    kind = idx % 7
     steps = []
     if kind == 0:      # many holders on a semaphore key, random-order unlock, re-lock some
         n = rng.choice([10, 140, 200])
@@ -193,6 +193,24 @@ def gen_big(seed, idx):
             elif r < 0.65:
                 steps.append({"op": "lock", "conn": 1, "key": 1, "lid": 10 + i, "flag": 2, "to": 0, "ex": rng.choice([5, 30, 80]), "cnt": 50, "rc": 2})  # update
         steps.append({"op": "tick", "n": 100})
+    elif kind == 6:    # holder population large enough for the map-backed "scale" holder queue (> ~193 queued holders),
+                       # released oldest-first so holders are promoted out of the scale queue; LockIds reused afterwards
+        n = rng.choice([230, 260, 300])
+        cnt = rng.choice([0xffff, n + 10])
+        for l in range(1, n + 1):
+            steps.append({"op": "lock", "conn": 1 + l % 3, "key": 1, "lid": l, "to": 0, "ex": 200, "cnt": cnt, "rc": 0})
+        released = []
+        for l in range(1, n - 15):
+            steps.append({"op": "unlock", "conn": 1, "key": 1, "lid": l, "rc": 0})
+            released.append(l)
+            if l > 195 and rng.random() < 0.25:
+                v = rng.choice(released[-20:])
+                steps.append({"op": "unlock", "conn": 2, "key": 1, "lid": v, "rc": 0})          # duplicate unlock: must be refused
+            if l > 195 and rng.random() < 0.15:
+                v = rng.choice(released[-20:])
+                released.remove(v)
+                steps.append({"op": "lock", "conn": 2, "key": 1, "lid": v, "to": 0, "ex": rng.choice([5, 200]), "cnt": cnt})   # LockId reused: a new hold
+        steps.append({"op": "tick", "n": 8})
     else:              # semaphore with waiters of mixed Count: wake passes that admit several at once
         c = rng.choice([2, 3, 5])
         for l in range(1, c + 2):
